@@ -41,13 +41,16 @@ CONSTANTS
     MaxSteps,
     StepCap,      \* the advertised step is never larger than this (rational)
     EmitDyn,      \* Finish is offered in a concentration state (one case per system and state)
+    MaxHist,      \* history generator: number of Query / Reorder operations on the built system
+    MaxReorders,  \* history generator: number of Reorder operations among them
+    UnitCfgs,     \* unit configurations a case is also to be run under (sequence of records, see UnitRec)
     Times,        \* output times handed to the integrator with each case (sequence of rationals)
     Tol           \* [atol, rtol : rationals requested from the integrator, guard : Nat, steprtol]: a result agrees
                   \* with the reference when |y - yref| <= guard * (atol + rtol * scale); the advertised step
                   \* agrees with MaxEulerStep when it is within the relative tolerance steprtol
 
-VARIABLES subs, rxns, built, c, c0, nsteps, last, stage
-vars == <<subs, rxns, built, c, c0, nsteps, last, stage>>
+VARIABLES subs, rxns, built, c, c0, nsteps, last, stage, hist
+vars == <<subs, rxns, built, c, c0, nsteps, last, stage, hist>>
 
 ------------------------------------------------------------------------------
 (* substances and compositions *)
@@ -196,45 +199,67 @@ FormsComplete(ss, us) ==
 ------------------------------------------------------------------------------
 Init ==
     /\ subs = <<>> /\ rxns = <<>> /\ built = "none" /\ c = <<>> /\ c0 = <<>>
-    /\ nsteps = 0 /\ last = "none" /\ stage = "subst"
+    /\ nsteps = 0 /\ last = "none" /\ stage = "subst" /\ hist = <<>>
 
 AddSubstance(s) ==
     /\ stage = "subst" /\ WellFormedSubst(s)
     /\ \A i \in 1..NS : subs[i].name # s.name
     /\ subs' = Append(subs, s)
-    /\ UNCHANGED <<rxns, built, c, c0, nsteps, last, stage>>
+    /\ UNCHANGED <<rxns, built, c, c0, nsteps, last, stage, hist>>
 
 AddReaction(r) ==
     /\ stage \in {"subst", "rxn"} /\ NS >= 1 /\ IsRxn(r, NS)
     /\ rxns' = Append(rxns, r) /\ stage' = "rxn"
-    /\ UNCHANGED <<subs, built, c, c0, nsteps, last>>
+    /\ UNCHANGED <<subs, built, c, c0, nsteps, last, hist>>
 
 (* submitting the system: accepted iff every reaction is balanced in every key *)
 Build ==
     /\ stage = "rxn"
     /\ built' = IF Accept(subs, rxns) THEN "accepted" ELSE "rejected"
     /\ stage' = IF Accept(subs, rxns) THEN "built" ELSE "done"
-    /\ UNCHANGED <<subs, rxns, c, c0, nsteps, last>>
+    /\ UNCHANGED <<subs, rxns, c, c0, nsteps, last, hist>>
 
 SetState(cc) ==
     /\ stage \in {"built", "dyn"} /\ Len(cc) = NS /\ \A i \in 1..NS : cc[i] \in Nat
     /\ c' = QVec(cc) /\ c0' = QVec(cc) /\ nsteps' = 0 /\ last' = "set" /\ stage' = "dyn"
-    /\ UNCHANGED <<subs, rxns, built>>
+    /\ UNCHANGED <<subs, rxns, built, hist>>
 
 EulerStep(h) ==
     /\ stage = "dyn" /\ h[2] > 0
     /\ c' = Euler(rxns, c, h) /\ nsteps' = nsteps + 1 /\ last' = "euler"
-    /\ UNCHANGED <<subs, rxns, built, c0, stage>>
+    /\ UNCHANGED <<subs, rxns, built, c0, stage, hist>>
 
 (* the advertised safe step, taken from the state that was set *)
 SafeStep ==
     /\ stage = "dyn" /\ last = "set"
     /\ c' = Euler(rxns, c, MaxEulerStep(subs, rxns, c)) /\ nsteps' = nsteps + 1 /\ last' = "safe"
-    /\ UNCHANGED <<subs, rxns, built, c0, stage>>
+    /\ UNCHANGED <<subs, rxns, built, c0, stage, hist>>
 
 Finish ==
     /\ stage \in {"built", "dyn"} /\ stage' = "done"
-    /\ UNCHANGED <<subs, rxns, built, c, c0, nsteps, last>>
+    /\ UNCHANGED <<subs, rxns, built, c, c0, nsteps, last, hist>>
+
+(* History of one system object: it may be asked for its composition vectors (directly: "B", *)
+(* or by building an ODE system from it: "odesys") any number of times, and its substances    *)
+(* may be put into another order in between.  A query changes nothing; after Reorder(p) the   *)
+(* substance at position m is the one that was at position p[m], every vector over the        *)
+(* substances follows, and so must every later answer (the columns of B in particular).       *)
+IsPerm(p, n) == Len(p) = n /\ { p[i] : i \in 1..Len(p) } = 1..n
+PermVec(v, p) == [m \in 1..Len(p) |-> v[p[m]]]
+PermRxn(r, p) == [reac |-> PermVec(r.reac, p), prod |-> PermVec(r.prod, p),
+                  ireac |-> PermVec(r.ireac, p), iprod |-> PermVec(r.iprod, p), k |-> r.k]
+Query(kind) ==
+    /\ stage \in {"built", "dyn"} /\ kind \in {"B", "odesys"}
+    /\ hist' = Append(hist, [op |-> "query", kind |-> kind, p |-> <<>>])
+    /\ UNCHANGED <<subs, rxns, built, c, c0, nsteps, last, stage>>
+Reorder(p) ==
+    /\ stage \in {"built", "dyn"} /\ IsPerm(p, NS)
+    /\ subs' = PermVec(subs, p)
+    /\ rxns' = [j \in 1..Len(rxns) |-> PermRxn(rxns[j], p)]
+    /\ c' = IF c = <<>> THEN c ELSE PermVec(c, p)
+    /\ c0' = IF c0 = <<>> THEN c0 ELSE PermVec(c0, p)
+    /\ hist' = Append(hist, [op |-> "reorder", kind |-> "", p |-> p])
+    /\ UNCHANGED <<built, nsteps, last, stage>>
 
 ------------------------------------------------------------------------------
 (* generators (model checking / case generation) *)
@@ -252,6 +277,9 @@ NViol(r) == Cardinality(ViolatedKeys(SubPool, r))
 WithK(r, k) == [reac |-> r.reac, prod |-> r.prod, ireac |-> r.ireac, iprod |-> r.iprod, k |-> k]
 Pow10Q(e) == IF e >= 0 THEN <<IPow(10, e), 1>> ELSE <<1, IPow(10, -e)>>
 
+NReorders == Cardinality({ i \in 1..Len(hist) : hist[i].op = "reorder" })
+LastOp == IF hist = <<>> THEN "none" ELSE hist[Len(hist)].op
+Perms(n) == { p \in [1..n -> 1..n] : IsPerm(p, n) /\ p # [i \in 1..n |-> i] }
 GenSubstance == NS < NP /\ AddSubstance(SubPool[NS + 1])
 
 PairPool == { r \in StoichPool : NViol(r) <= MaxViol }
@@ -283,14 +311,21 @@ GenEdge ==
           /\ i # j /\ Multiple(i, j) > 0 /\ EdgeRank(i, j) > LastRank
           /\ AddReaction(EdgeRxn(i, j, Pow10Q(e)))
 
-GenSetState == stage = "built" /\ \E cc \in States : SetState(cc)
+GenSetState == stage = "built" /\ hist = <<>> /\ \E cc \in States : SetState(cc)
 GenEulerStep == nsteps < MaxSteps /\ last # "safe" /\ \E h \in Steps : EulerStep(h)
 GenSafeStep == MaxSteps > 0 /\ nsteps = 0 /\ SafeStep
-GenFinish == /\ \/ stage = "built" /\ (~EmitDyn \/ States = {})
+GenFinish == /\ (MaxHist > 0 => LastOp = "query")
+             /\ \/ stage = "built" /\ (~EmitDyn \/ States = {})
                 \/ stage = "dyn" /\ EmitDyn /\ nsteps = 0
              /\ Finish
 
-Next == \/ GenSubstance \/ GenReaction \/ GenReverse \/ GenEdge \/ Build
+GenQuery == /\ stage = "built" /\ Len(hist) < MaxHist /\ LastOp # "query"
+            /\ \E kind \in {"B", "odesys"} : Query(kind)
+GenReorder == /\ stage = "built" /\ Len(hist) + 1 < MaxHist /\ NReorders < MaxReorders /\ LastOp # "reorder"
+              /\ \E p \in Perms(NS) : Reorder(p)
+
+Next == \/ GenQuery \/ GenReorder
+        \/ GenSubstance \/ GenReaction \/ GenReverse \/ GenEdge \/ Build
         \/ GenSetState \/ GenEulerStep \/ GenSafeStep \/ GenFinish
 
 Spec == Init /\ [][Next]_vars
@@ -406,6 +441,41 @@ Class ==
 QMaxSet(S) == CHOOSE a \in S : \A b \in S : QLe(b, a)
 Scale(ss, cc) == LET fin == { b \in SeqRange(Bounds(ss, cc)) : ~IsInf(b) /\ b[1] > 0 }
                  IN  IF fin = {} THEN QOne ELSE QMaxSet(fin)
+(* Unit configurations (C06: "from text input through to the result arrays").  The plain run *)
+(* of a case is dimensionless; it is read as time in seconds and concentration in molar.      *)
+(* A unit configuration [name, tout, cout, tin, cin, kt, kc] (unit names) asks for the same   *)
+(* system with rate constants written with units in the reaction text (per kt, per kc), the   *)
+(* initial state given in cin, the output times given in tin, and results requested in tout   *)
+(* and cout.  The tables hold the exact size of each unit; the result arrays, multiplied by   *)
+(* the size of the unit they are labelled with, must be the plain result.                     *)
+TimeUnitNames == <<"second", "minute", "hour", "millisecond">>
+TimeUnitSecs == <<<<1, 1>>, <<60, 1>>, <<3600, 1>>, <<1, 1000>>>>
+ConcUnitNames == <<"molar", "millimolar", "micromolar">>
+ConcUnitMolar == <<<<1, 1>>, <<1, 1000>>, <<1, 1000000>>>>
+Lookup(names, vals, n) == vals[CHOOSE i \in 1..Len(names) : names[i] = n]
+TimeFac(n) == Lookup(TimeUnitNames, TimeUnitSecs, n)
+ConcFac(n) == Lookup(ConcUnitNames, ConcUnitMolar, n)
+RECURSIVE Repeat(_, _)
+Repeat(t, n) == IF n <= 0 THEN "" ELSE t \o Repeat(t, n - 1)
+(* a rate constant k [molar^(1-n)/second] of a reaction of order n, written per kc and per kt *)
+KInUnits(k, n, u) == QMul(k, QMul(TimeFac(u.kt), QPow(ConcFac(u.kc), n - 1)))
+QText(q) == IF q[2] = 1 THEN ToString(q[1]) ELSE ToString(q[1]) \o "/" \o ToString(q[2])
+UnitRxnText(ss, r, u) ==
+    JoinPlus(SideTerms(ss, r.reac, r.ireac)) \o " -> " \o JoinPlus(SideTerms(ss, r.prod, r.iprod))
+    \o "; " \o QText(KInUnits(r.k, Order(r), u)) \o Repeat("/" \o u.kc, Order(r) - 1) \o "/" \o u.kt
+UnitRec(ss, rs, cc, u) ==
+    [ name |-> u.name, tout |-> u.tout, cout |-> u.cout, tin |-> u.tin, cin |-> u.cin,
+      lines |-> [j \in 1..Len(rs) |-> UnitRxnText(ss, rs[j], u)],
+      tvals |-> [i \in 1..Len(Times) |-> QDiv(Times[i], TimeFac(u.tin))],
+      cvals |-> [i \in 1..Len(cc) |-> QDiv(cc[i], ConcFac(u.cin))],
+      timeunits |-> [i \in 1..Len(TimeUnitNames) |-> <<TimeUnitNames[i], TimeUnitSecs[i]>>],
+      concunits |-> [i \in 1..Len(ConcUnitNames) |-> <<ConcUnitNames[i], ConcUnitMolar[i]>>] ]
+(* writing a constant in units and reading it back is the identity *)
+UnitTextRoundTrip ==
+    \A j \in 1..Len(rxns) : \A i \in 1..Len(UnitCfgs) :
+        LET u == UnitCfgs[i]  n == Order(rxns[j])
+        IN  QDiv(KInUnits(rxns[j].k, n, u), QMul(TimeFac(u.kt), QPow(ConcFac(u.kc), n - 1))) = Norm(rxns[j].k)
+
 (* Observations of the dynamics are made on the system restricted to its used substances     *)
 (* (the ODE builder of the library needs every substance to take part in a reaction).         *)
 DynRec(ss, rs, cc) ==
@@ -424,9 +494,19 @@ RedRec ==
         cc == IF c0 = <<>> THEN <<>> ELSE RestrictVec(c0, us)
     IN  [ subs |-> ss, rxns |-> rs, keys |-> KeySeq(ss), B |-> BMatrix(ss), poly |-> RhsPoly(rs, Len(ss)),
           G |-> IF FirstOrder(rs) THEN GenMatrix(rs, Len(ss)) ELSE <<>>,
-          dyn |-> DynRec(ss, rs, cc) ]
+          dyn |-> DynRec(ss, rs, cc),
+          units |-> IF cc = <<>> THEN <<>> ELSE [i \in 1..Len(UnitCfgs) |-> UnitRec(ss, rs, cc, UnitCfgs[i])] ]
+(* the system as it was constructed, i.e. before the reorderings of the history *)
+InvPerm(p) == [i \in 1..Len(p) |-> CHOOSE m \in 1..Len(p) : p[m] = i]
+RECURSIVE UndoFrom(_, _)
+UndoFrom(v, i) == IF i = 0 THEN v
+                  ELSE UndoFrom(IF hist[i].op = "reorder" THEN PermVec(v, InvPerm(hist[i].p)) ELSE v, i - 1)
+Undo(v) == UndoFrom(v, Len(hist))
+Subs0 == Undo(subs)
+Rxns0 == [j \in 1..Len(rxns) |-> [reac |-> Undo(rxns[j].reac), prod |-> Undo(rxns[j].prod),
+                                    ireac |-> Undo(rxns[j].ireac), iprod |-> Undo(rxns[j].iprod), k |-> rxns[j].k]]
 CaseRec ==
-    [ in  |-> [ subs |-> subs, rxns |-> rxns, lines |-> SysLines(subs, rxns),
+    [ in  |-> [ subs |-> Subs0, rxns |-> Rxns0, lines |-> SysLines(Subs0, Rxns0), hist |-> hist,
                 c0 |-> IF c0 = <<>> THEN <<>> ELSE [i \in 1..NS |-> c0[i][1]],
                 tout |-> Times, tol |-> Tol ],
       cls |-> Class,
